@@ -74,6 +74,16 @@ theorem perfectMatF_range (T : Fin n → Fin k → K) (Ti : Fin k → Fin n → 
   funext i
   simp only [perfectMatF, one_mul, Pi.zero_apply, sum_TiT T Ti h b, sub_self]
 
+/-- user-supplied coefficients: the `l`-th orthogonalised mode is attenuated by `1 − c_l` -/
+theorem perfectMatF_range_coeffs (T : Fin n → Fin k → K) (Ti : Fin k → Fin n → K) (h : LeftInvF T Ti)
+    (c b : Fin k → K) :
+    perfectMatF T Ti c (fun i => ∑ l, T i l * b l) = fun i => ∑ l, T i l * ((1 - c l) * b l) := by
+  funext i
+  simp only [perfectMatF, sum_TiT T Ti h b]
+  rw [← Finset.sum_sub_distrib]
+  refine Finset.sum_congr rfl fun l _ => ?_
+  ring
+
 /-- entries of a matrix given by rows -/
 def toFn2 {m n : ℕ} (M : Vector (Vector K n) m) : Fin m → Fin n → K := fun r i => M[r][i]
 
@@ -96,6 +106,26 @@ theorem toFn_perfectMat (T : Vector (Vector K k) n) (Tinv : Vector (Vector K n) 
   unfold perfectMatF
   simp [toFn, toFn2, h1]
 
+theorem toFn2_perfectMatrix (T : Vector (Vector K k) n) (Tinv : Vector (Vector K n) k) (c : Vector K k)
+    (i i' : Fin n) :
+    toFn2 (perfectMatrix T Tinv c) i i' =
+      (if i = i' then 1 else 0) - ∑ j, toFn2 T i j * (toFn c j * toFn2 Tinv j i') := by
+  unfold perfectMatrix toFn2
+  simp [dot_eq_ip, ip, toFn]
+
+/-- the reported matrix applied to a field is what `forward` computes -/
+theorem toFn_matVec_perfectMatrix (T : Vector (Vector K k) n) (Tinv : Vector (Vector K n) k) (c : Vector K k)
+    (E : Vector K n) :
+    toFn (matVec (perfectMatrix T Tinv c) E) = toFn (perfectMat T Tinv c E) := by
+  rw [toFn_matVec, toFn_perfectMat]
+  funext i
+  simp only [toFn2_perfectMatrix, perfectMatF, sub_mul, Finset.sum_sub_distrib, ite_mul, one_mul, zero_mul,
+    Finset.sum_ite_eq, Finset.mem_univ, if_true]
+  congr 1
+  simp only [Finset.sum_mul, Finset.mul_sum]
+  rw [Finset.sum_comm]
+  refine Finset.sum_congr rfl fun j _ => Finset.sum_congr rfl fun i' _ => ?_
+  ring
 
 /-! ### the decidable hypotheses, on the executable objects -/
 
